@@ -592,13 +592,13 @@ func checkDXF(dir string, variant int, chunks [][]Seg) (obs *dxfObs, bad []strin
 	return
 }
 
-func dxfCaseTerm(id int, chunks [][]Seg, obs *dxfObs) string {
+func dxfCaseTerm(id, variant int, chunks [][]Seg, obs *dxfObs) string {
 	es := make([]string, len(obs.pts))
 	for i, p := range obs.pts {
 		es[i] = fmt.Sprintf("(%s%%string, (%s, %s, %s)%%Z, (%s, %s, %s)%%Z)", strconv.Quote(obs.layers[i]),
 			zterm(p[0]), zterm(p[1]), zterm(p[2]), zterm(p[3]), zterm(p[4]), zterm(p[5]))
 	}
-	return fmt.Sprintf("(%d%%N, %s,\n %s)", id, segChunksTerm(chunks), CList(es))
+	return fmt.Sprintf("(%d%%N, %d%%N, %s,\n %s)", id, variant, segChunksTerm(chunks), CList(es))
 }
 
 // ------------------------------------------------------------------ SVG
@@ -737,12 +737,12 @@ func checkSVG(dir string, variant int, style string, chunks [][]Seg) (obs *svgOb
 	return
 }
 
-func svgCaseTerm(id int, chunks [][]Seg, obs *svgObs) string {
+func svgCaseTerm(id, variant int, chunks [][]Seg, obs *svgObs) string {
 	ls := make([]string, len(obs.lines))
 	for i, p := range obs.lines {
 		ls[i] = fmt.Sprintf("(%s, %s, %s, %s)", zterm(p[0]), zterm(p[1]), zterm(p[2]), zterm(p[3]))
 	}
-	return fmt.Sprintf("(%d%%N, %s,\n %s%%Z, %s%%Z, %s%%Z)", id, segChunksTerm(chunks), zterm(obs.w), zterm(obs.h), CList(ls))
+	return fmt.Sprintf("(%d%%N, %d%%N, %s,\n %s%%Z, %s%%Z, %s%%Z)", id, variant, segChunksTerm(chunks), zterm(obs.w), zterm(obs.h), CList(ls))
 }
 
 // ------------------------------------------------------------------ generators
@@ -1082,7 +1082,7 @@ func checkC15(c *Ctx, r *Report) error {
 		if obs == nil {
 			obs = &dxfObs{layers: []string{"unreadable"}, pts: [][6]*big.Int{{big.NewInt(0), big.NewInt(0), big.NewInt(0), big.NewInt(0), big.NewInt(0), big.NewInt(0)}}}
 		}
-		csDXF.Add(dxfCaseTerm(id, chunks, obs))
+		csDXF.Add(dxfCaseTerm(id, variant, chunks, obs))
 	}
 	svgCase := func(stratum string, variant int, chunks [][]Seg) {
 		id++
@@ -1107,7 +1107,7 @@ func checkC15(c *Ctx, r *Report) error {
 		if obs == nil {
 			obs = &svgObs{w: big.NewInt(-1), h: big.NewInt(-1)}
 		}
-		csSVG.Add(svgCaseTerm(id, chunks, obs))
+		csSVG.Add(svgCaseTerm(id, variant, chunks, obs))
 	}
 
 	writeAll := func() error {
@@ -1189,12 +1189,12 @@ func checkC15(c *Ctx, r *Report) error {
 	}
 
 	// ---- generated
-	nMF := TierN(c.Tier, 330, 6000, 1500)
+	nMF := TierN(c.Tier, 600, 6000, 1500)
 	for k := 0; k < nMF; k++ {
 		st, ch := genTris(rng, k, -1)
 		mfCase(st, ch)
 	}
-	nMB := TierN(c.Tier, 200, 4000, 600)
+	nMB := TierN(c.Tier, 300, 4000, 600)
 	for k := 0; k < nMB; k++ {
 		mag := []int{magBound, magAdj, magSubmic, magLarge, magTiny, magFloat, magHuge, magGrid, magAdj, magBound}[k%10]
 		_, ch := genTris(rng, k, mag)
@@ -1206,12 +1206,12 @@ func checkC15(c *Ctx, r *Report) error {
 		r.Case("go3mf-meshbuilder/"+magName[mag], keyOf("mb", ts), len(ts) >= 1)
 		csMB.Add(mbCaseTerm(id, ts))
 	}
-	nDXF := TierN(c.Tier, 270, 5000, 1200)
+	nDXF := TierN(c.Tier, 450, 5000, 1200)
 	for k := 0; k < nDXF; k++ {
 		st, ch := genSegs(rng, k)
 		dxfCase(st, k%3, ch)
 	}
-	nSVG := TierN(c.Tier, 330, 6000, 1500)
+	nSVG := TierN(c.Tier, 600, 6000, 1500)
 	for k := 0; k < nSVG; k++ {
 		st, ch := genSegs(rng, k)
 		svgCase(st, (k/2)%3, ch)
